@@ -35,9 +35,7 @@ ASSUMPTIONS = ['integer times, environment starts at time 0',
                'embedded graphs use until = time | event (a native triggering an event after an `until=None` '
                'environment has drained hits ScopeClosed, whose moment depends on the scope internals)',
                'natives reference plain events and up-front processes only; a process references a '
-               'sub-process only after starting it itself; Timeouts are created inside processes',
-               'no `raise` before the first yield of a script (see design_notes/C18.md: the exception leaves '
-               'Process._run_payload instead of failing the process event)']
+               'sub-process only after starting it itself; Timeouts are created inside processes']
 
 ACT_NAT, ACT_CB, ACT_RES = 100, 200, 300
 
@@ -588,11 +586,14 @@ def gen_graph(rng, profile, mode=None):
         first = True
         lead = rng.randint(0, 2)
         if rng.random() < 0.08:
-            # a process that ends without ever yielding (D17): a few operations, then return / fall off the end
+            # a process that ends without ever yielding (D17, D19): a few operations, then return / raise / fall off
             for i in range(rng.randint(0, 3)):
                 sc.append(op(known, kprocs))
-            if rng.random() < 0.7:
+            r = rng.random()
+            if r < 0.55:
                 sc.append(['ret', rng.randint(0, 9)])
+            elif r < 0.8:
+                sc.append(['raise', rng.randint(0, 9)])      # D19
             procs[p]['script'] = sc
             continue
         for i in range(n + 2):
@@ -719,6 +720,9 @@ def corner_graphs():
         # processes that end without ever yielding (D17), up-front and as a sub-process waited for by the parent
         G([P(1, [['ret', 7]]), P(2, [['succ', 0, 1]]), P(3, [Y(['ev', 1]), Y(['ev', 2]), Y(['ev', 0])])]),
         G([P(1, [['start', 1], Y(['ev', 2]), Y(['to', 3, 1, 0]), Y(['ev', 2])]), P(2, [['ret', 4]], up=False)]),
+        # a process that raises before its first yield (D19): handled by the waiting parent / unhandled
+        G([P(1, [['start', 1], Y(['ev', 2]), Y(['to', 3, 1, 0])]), P(2, [['raise', 6]], up=False)]),
+        G([P(1, [Y(['to', 3, 1, 0]), Y(['to', 4, 1, 0])]), P(2, [['succ', 0, 1], ['raise', 6]])]),
         # sub-process, waited for by the parent
         G([P(2, [['start', 1], Y(['ev', 3]), ['ret', 1]]), P(3, [Y(['to', 4, 2, 0]), ['ret', 8]], up=False)], nev=2),
     ]
@@ -870,11 +874,6 @@ def still_fails(g):
 
 def valid(g):
     try:
-        for p in g['procs']:
-            ys = [i for i, a in enumerate(p['script']) if a[0] == 'yield']
-            first = ys[0] if ys else len(p['script'])
-            if any(a[0] == 'raise' for a in p['script'][:first]):
-                return False
         run_graph(g)
         return True
     except (KeyError, IndexError, ValueError, AssertionError, AttributeError):
